@@ -142,3 +142,29 @@ def escalate(rep, mism, is_claim, refuted_by, seed, budget=60000, time_cap=150, 
     rep.cov["escalation_cases_tried"] = rep.cov.get("escalation_cases_tried", 0) + tried
     rep.cov["escalation_failing_inputs_found"] = rep.cov.get("escalation_failing_inputs_found", 0) + found
     return found
+
+
+def cps_order_sensitive(mism):
+    """cps.rs iterates a HashSet, whose order differs from run to run; the Boolean answer does not
+    depend on it EXCEPT when the search ends within reach of MAX_LOOPS / MAX_DEPTH (the number of
+    passes to the fixed point depends on the order).  A cps mismatch is therefore kept only when the
+    model's own answer is stable under the reversed order and under halved and doubled limits;
+    otherwise the case is order-sensitive and is not compared (returned separately, counted)."""
+    keep, dropped = [], []
+    q, idx = [], []
+    for m in mism:
+        c = m["case"]
+        op = c.split(" ")[0]
+        if op.startswith("cps_") and op.split("_", 1)[1] in ("halt", "blank", "spin_out") and m["impl"] in ("true", "false") and m["model"] in ("true", "false"):
+            g, rad, prog = op.split("_", 1)[1], c.split(" ")[1], c.split(" | ", 1)[1]
+            for ml, md, rev in ((1000, 100000, 0), (1000, 100000, 1), (2000, 200000, 0), (500, 50000, 1)):
+                q.append(f"cps_lim {g} {rad} {ml} {md} {rev} | {prog}")
+            idx.append(m)
+        else:
+            keep.append(m)
+    if q:
+        outs = core.run_driver(q)
+        for k, m in enumerate(idx):
+            vs = set(outs[4 * k: 4 * k + 4])
+            (keep if len(vs) == 1 else dropped).append(m)
+    return keep, dropped
